@@ -1,5 +1,5 @@
 (* C12 — Status tells the truth.  Statements only. *)
-From ASTS Require Import Base Slots Names World Reconcile PlanProofs ReconcileProofs StatusProofs ExampleWorld.
+From ASTS Require Import Base Slots Names World Reconcile PlanProofs ReconcileProofs StatusProofs CounterProofs ExampleWorld.
 
 (* (1) every status write of every reconcile (any API state, cache, fault oracle): it is written against
    the resourceVersion of the cached set that was reconciled; observedGeneration is the generation of that
@@ -28,21 +28,50 @@ Theorem C12_stale_writer_conflicts :
 Proof. exact status_write_precondition. Qed.
 Print Assumptions C12_stale_writer_conflicts.
 
-(* (3) PARTIAL.  Full statement of the counter clause: for every status written,
-        0 <= st_ready, st_current, st_updated <= st_replicas,
-   and at a quiescent fixed point the four counters are the census of the live pods.  What is proved about
-   the counters is (1)'s completion rule; the bounds and the census are NOT proved in Coq: they are decided
-   on the implementation by the monitor of props/c12.py on every status write of every generated snapshot,
-   fault variant and history, and through the projected correspondence (payload of every status update).
-   Missing for a proof: a counting argument pairing every decrement of the three loops with the pod that
-   the census counted (disjointness of replaced / condemned / update-deleted pods). *)
-Theorem C12_counters_partial : forall s st,
+(* (3) the counters of EVERY status write are within bounds, for every API state, informer cache (stale or
+   not), fault oracle, any number of revisions in flight, terminating / failed / condemned pods.  Hypothesis:
+   the cached pods have a phase (the API server defaults status.phase to Pending when it stores a pod); the
+   condemned loop takes a condemned pod out of the revision counters without asking whether it was counted. *)
+Theorem C12_counters_within_bounds :
+  forall hashes api cache faults o log w' st rv e,
+    reconcile hashes api cache faults = (o, log, w') ->
+    (forall p, In p (w_pods cache) -> isCreated p = true) ->
+    In (CUpdateStatus st rv, e) log ->
+    0 <= st_ready st <= st_replicas st /\ 0 <= st_current st <= st_replicas st /\ 0 <= st_updated st <= st_replicas st.
+Proof. exact status_write_counters. Qed.
+Print Assumptions C12_counters_within_bounds.
+
+(* (4) the completion rule on the counters: currentRevision moves only when updated = replicas = ready *)
+Theorem C12_completion_rule : forall s st,
   (st_currev (complete_rolling_update s st) = st_currev st /\ complete_rolling_update s st = st)
   \/ (s_strategy s = "RollingUpdate"%string /\ st_updated st = st_replicas st /\ st_ready st = st_replicas st
       /\ st_currev (complete_rolling_update s st) = st_updrev st
       /\ st_current (complete_rolling_update s st) = st_updated st).
 Proof. exact complete_rolling_update_currev. Qed.
-Print Assumptions C12_counters_partial.
+Print Assumptions C12_completion_rule.
+
+(* (5) at a fixed point (the plan of the reconcile holds no action) a status that is written is the exact census
+   of the pods the set claims: total, Running-and-Ready, counted at the update revision, counted at the
+   current revision (or, when the rollout completes in this very write, current := update).  sumf f l is
+   the sum of f over l; cc r p = 1 when p is created, not terminating and at revision r, else 0; rr p = 1
+   when p is Running and Ready. *)
+Theorem C12_census_at_fixed_point :
+  forall hashes api cache faults o log w' st rv e,
+    reconcile hashes api cache faults = (o, log, w') -> In (CUpdateStatus st rv, e) log ->
+    exists s cur upd coll claimed po,
+      ctx_valid cache (s, cur, upd, coll, claimed, po)
+      /\ (po_acts po = [] ->
+          st_replicas st = Z.of_nat (length claimed) /\ st_ready st = sumf rr claimed
+          /\ st_updated st = sumf (cc upd) claimed
+          /\ (st_current st = sumf (cc cur) claimed
+              \/ (st_currev st = ri_name upd /\ st_updated st = st_replicas st /\ st_ready st = st_replicas st
+                  /\ st_current st = sumf (cc upd) claimed))).
+Proof. exact status_write_census. Qed.
+Print Assumptions C12_census_at_fixed_point.
+
+(* non-vacuity of (3): the example world's pods all have a phase, and a status is written *)
+Example C12_ex_bounds : forall p, In p ex_healthy3 -> isCreated p = true.
+Proof. intros p [<-|[<-|[<-|[]]]]; reflexivity. Qed.
 
 (* non-vacuity: a scale-in reconcile writes a status with the reconciled generation *)
 Example C12_ex :
